@@ -135,7 +135,7 @@ PLANS = {
     "C08": plan(["C08_OneVoterDelta", "C08_ConfigOnlyWhenSafe", "C19_LatestIsNewest", "C01_ElectionSafety", "C02_CommittedAgree", "C02_CommittedStable"], [CONF_Q12, CONF_Q21], [CONF_T], ["G_ConfigCommittedFirst", "G_OwnTermBeforeConfig"], sim=("conf",)),
     "C11": plan(["C11_OnlyVotersCampaign", "C11_OnlyVotersLead", "C11_PromoteAfterRound", "C11_StopOnlyWhenRemoved", "C11_DemotedLeaderStepsDown", "C11_OnlyVotersVote", "C06_MajorityDurable"],
                 [CONF_Q12, CONF_Q21], [CONF_T], ["G_NonVoterNoElection", "G_PromoteAfterRound", "G_StepDownWhenDemoted", "G_MajorityOfVoters", "FixD14"], sim=("conf",)),
-    "C09": plan(["C09_SnapshotCommitted", "C09_NoViewInvalidation", "C03_FsmIsCommittedPrefix", "C03_FsmNotAhead", "C02_CommittedAgree", "C04_LogMatching", "C19_Ordered"], [SNAP_Q], [SNAP_T], ["FixD5", "FixD11", "FixD19"], sim=("snap",), fuzz=("snap", "part")),
+    "C09": plan(["C09_SnapshotCommitted", "C09_NoViewInvalidation", "C03_FsmIsCommittedPrefix", "C03_FsmNotAhead", "C02_CommittedAgree", "C04_LogMatching", "C19_Ordered"], [SNAP_Q], [SNAP_T], ["FixD5", "FixD11", "FixD19", "FixD23"], sim=("snap",), fuzz=("snap", "part")),
     "C12": plan(["C12_LabelOK"], [SNAP_Q], [SNAP_T], ["FixD4", "FixD20"], sim=("snap", "conf"), fuzz=("snap", "conf", "fairconf")),
     "C19": plan(["C19_Ordered", "C19_LatestIsNewest", "C19_Monotone"], [REPL_Q3, REPL_Q2], [REPL_T3, REPL_T2], ["G_ConsistencyCheck", "G_FollowerOwnTerm", "FixD19", "FixD22", "G_CommitMonotone"], sim=("core", "conf"), fuzz=("core", "conf", "batch", "part")),
     # C10: crash at every hook point inside the handlers (image of the directory at that instant), restart on the image, rejoin
@@ -144,8 +144,8 @@ PLANS = {
                 [REPL_Q2], [REPL_T2], ["G_FlushBeforeAck", "FixD13", "G_PersistVote", "FixD7"], sim=("core",), fuzz=("crashpt", "crashpart", "snap"),
                 level="fault_enumeration", runs=(200, 2400)),
     # C15: no self-inflicted death, every task completes, shutdown completes pending tasks
-    "C15": plan(["C15_NoSelfInflictedDeath", "C15_AllTasksComplete", "C15_TaskCompletesOnce"], [SNAP_Q], [SNAP_T, CONF_T], ["FixD5", "FixD11", "FixD18"], sim=("snap",),
-                fuzz=("all", "snap", "fairconf"), runs=(128, 1600)),
+    "C15": plan(["C15_NoSelfInflictedDeath", "C15_AllTasksComplete", "C15_TaskCompletesOnce"], [SNAP_Q], [SNAP_T, CONF_T], ["FixD5", "FixD11", "FixD18", "FixD23"], sim=("snap",),
+                fuzz=("all", "snap", "fairconf", "part"), runs=(128, 1600)),
     # C07: client-visible semantics of updates / reads / barriers / dirty reads (ledger of submissions and completions)
     "C07": plan(["C07_UpdateAtReportedPosition", "C07_AtMostOnce", "C07_RejectedNeverApplied", "C07_RealTimeOrder", "C07_ReadsReflectAccepted",
                  "C07_ReadsOnlyCommitted", "C03_FsmIsCommittedPrefix"],
